@@ -137,6 +137,22 @@ def run(chk):
             for ks in cuts_for(rng, p, boundary, False)[:(40 if thorough else 12)]:
                 traces.append(mplib.run_split(boundary, p, ks, kind='prefix'))
                 chk.count(1, ('p', boundary, len(p), tuple(ks[:6]), len(ks)))
+    # delimiter look-alikes: part data that ends one read with the first bytes of CRLF--boundary and is NOT a delimiter, a
+    # following part whose data begins with the rest of the delimiter text; the padding sweeps the distance to the real
+    # delimiter through every residue of the delimiter length; every single cut
+    for boundary in (b'XyZ', b'b-', b'--'):
+        tlen = len(b'\r\n--' + boundary)
+        for head in (b'\r\n-- ', b'\r\n--' + boundary[:1] + b'!', b'\r\n-', b'\r'):
+            for pad in range(0, tlen + 1, 1 if thorough else 2):
+                fields = [{'name': 'a', 'value': ('pre' + head.decode('latin1') + 'q' * pad)},
+                          {'name': 'tag', 'value': (boundary + b'-report').decode('latin1')},
+                          {'name': 'f', 'filename': 'x.bin', 'ctype': 'application/octet-stream', 'data': boundary + b'--\r\n' + boundary}]
+                body = mplib.encode_form(fields, boundary)
+                if body.count(b'\r\n--' + boundary) != 3 + 0 and body.count(b'--' + boundary) != 4:
+                    continue        # the look-alike must not be a real delimiter
+                for c in range(1, len(body)):
+                    traces.append(mplib.run_split(boundary, body, [c, len(body) - c], kind='wellformed'))
+                    chk.count(1, ('lookalike', boundary, head, pad, c))
     chk.sample({'kind': 'upload', 'boundary': bytes(traces[0]['boundary']).decode('latin1'),
                 'body_len': len(traces[0]['body']), 'chunks': [s['k'] for s in traces[0]['log']][:10]})
     mplib.validate(chk, traces, 'real uploads (independent encoder)')
